@@ -130,8 +130,9 @@ Qed.
 Lemma asc_all_above k v c : asc ((k, v) :: c) -> forall k' v', In (k', v') c -> k < k'.
 Proof.
   revert k v; induction c as [|[a b] r IH]; intros k v Ha k' v' Hin; [destruct Hin |].
-  cbn [asc] in Ha. destruct Ha as (Hlt & Ha). destruct Hin as [Heq|Hin]; [inversion Heq; subst; exact Hlt |].
-  assert (a < k') by (eapply IH; eauto). lia.
+  change (k < a /\ asc ((a, b) :: r)) in Ha. destruct Ha as (Hlt & Ha).
+  destruct Hin as [Heq|Hin]; [inversion Heq; subst; exact Hlt |].
+  assert (a < k') by (apply (IH a b Ha k' v' Hin)). lia.
 Qed.
 
 Lemma asc_of_above k v c : asc c -> (forall k' v', In (k', v') c -> k < k') -> asc ((k, v) :: c).
@@ -171,30 +172,38 @@ Proof.
   apply IH. unfold apply_row. destruct (w_principal r); auto. destruct (purges r); auto using asc_remove, asc_insert.
 Qed.
 
+Lemma c_get_above c : forall k, (forall k' v', In (k', v') c -> k < k') -> c_get k c = None.
+Proof.
+  induction c as [|[a b] c IH]; intros k H; cbn [c_get]; auto.
+  assert (k < a) by (apply (H a b); left; reflexivity).
+  destruct (a =? k) eqn:E; [apply N.eqb_eq in E; lia |]. apply IH. intros k' v' Hin; apply (H k' v'); right; exact Hin.
+Qed.
+
+Lemma asc_tail k v r : asc ((k, v) :: r) -> asc r.
+Proof. cbn [asc]; tauto. Qed.
+
 Lemma asc_ext c1 : forall c2, asc c1 -> asc c2 -> (forall d, c_get d c1 = c_get d c2) -> c1 = c2.
 Proof.
   induction c1 as [|[k v] r IH]; intros [|[k2 v2] r2] H1 H2 Hext; auto.
   - specialize (Hext k2); cbn [c_get] in Hext; rewrite N.eqb_refl in Hext; discriminate.
   - specialize (Hext k); cbn [c_get] in Hext; rewrite N.eqb_refl in Hext; discriminate.
-  - assert (forall c k, (forall k' v', In (k', v') c -> k < k') -> c_get k c = None) as Kabove.
-    { clear. induction c as [|[a b] c IH]; intros k H; cbn [c_get]; auto.
-      assert (k < a) by (apply (H a b); left; reflexivity).
-      destruct (a =? k) eqn:E; [apply N.eqb_eq in E; lia |]. apply IH. intros; apply (H k' v'); right; auto. }
-    assert (k = k2) as ->.
+  - pose proof (asc_all_above _ _ _ H1) as A1. pose proof (asc_all_above _ _ _ H2) as A2.
+    assert (k = k2) as Hk.
     { pose proof (Hext k) as Ek. pose proof (Hext k2) as Ek2. cbn [c_get] in Ek, Ek2.
       rewrite N.eqb_refl in Ek, Ek2.
       destruct (k2 =? k) eqn:E; [apply N.eqb_eq in E; auto |].
       rewrite N.eqb_sym, E in Ek2.
       assert (k < k2 \/ k2 < k) as [Hlt|Hlt] by (apply N.eqb_neq in E; lia).
-      - rewrite (Kabove r2 k) in Ek; [discriminate |].
-        intros k' v' Hin. assert (k2 < k') by (eapply asc_all_above; eauto). lia.
-      - rewrite (Kabove r k2) in Ek2; [discriminate |].
-        intros k' v' Hin. assert (k < k') by (eapply asc_all_above; eauto). lia. }
-    assert (v = v2) as -> by (specialize (Hext k2); cbn [c_get] in Hext; rewrite N.eqb_refl in Hext; congruence).
-    f_equal. apply IH; [cbn [asc] in H1; tauto | cbn [asc] in H2; tauto |].
-    intros d. specialize (Hext d). cbn [c_get] in Hext. destruct (k2 =? d) eqn:E; auto.
+      - rewrite (c_get_above r2 k) in Ek; [discriminate |].
+        intros k' v' Hin. specialize (A2 k' v' Hin). lia.
+      - rewrite (c_get_above r k2) in Ek2; [discriminate |].
+        intros k' v' Hin. specialize (A1 k' v' Hin). lia. }
+    subst k2.
+    assert (v = v2) as Hv by (specialize (Hext k); cbn [c_get] in Hext; rewrite N.eqb_refl in Hext; congruence).
+    subst v2. f_equal. apply IH; eauto using asc_tail.
+    intros d. specialize (Hext d). cbn [c_get] in Hext. destruct (k =? d) eqn:E; auto.
     apply N.eqb_eq in E; subst d.
-    rewrite (Kabove r k2), (Kabove r2 k2); auto; intros; eapply asc_all_above; eauto.
+    rewrite (c_get_above r k A1), (c_get_above r2 k A2); reflexivity.
 Qed.
 
 Theorem client_apply_idempotent_eq c rows :
